@@ -302,3 +302,310 @@ Qed.
 
 Theorem reachable_X : forall st, reachable st -> XInv st.
 Proof. intros st [scr [sched ->]]. apply wrun_X; [apply MInv_init|apply X_init]. Qed.
+
+(** ** the bookkeeping of the monitors *)
+Definition plain (e : wevent) : Prop :=
+  match e with ECmd _ | ERet _ | ECallback | EExit | EStart => False | _ => True end.
+Definition only_locks (k : list instr) : Prop := forall i, In i k -> exists m a, i = ILock m a.
+Definition evs (t : tid) (ev : list wevent) : otrace := map (fun e => (t, e)) ev.
+
+Record BRel (st : wstate) (b : mbase) : Prop := {
+  br_cur : forall t, (t < nthr st)%nat -> get_tid t (b_cur b) = tcur (thr st t);
+  br_dom : forall t, (nthr st <= t)%nat -> get_tid t (b_cur b) = None;
+  br_nd : NoDup (map fst (b_cur b));
+  br_notif : b_notif b = gnotified st;
+  br_exit : forall t, tcur (thr st t) = None -> tcont (thr st t) <> [] ->
+            memT t (b_exit b) = true \/ only_locks (tcont (thr st t)) }.
+
+Lemma get_tid_none : forall A t (l : list (tid * A)), get_tid t l = None <-> ~ In t (map fst l).
+Proof.
+  induction l as [|[u x] l IH]; cbn; [tauto|]. destruct (Nat.eqb_spec u t) as [->|N].
+  - split; [discriminate|]. intro H. exfalso. apply H. auto.
+  - rewrite IH. split; [intros H [E|E]; auto|intros H E; apply H; auto].
+Qed.
+Lemma get_tid_rm_other : forall A t u (l : list (tid * A)), u <> t -> get_tid u (rm_tid t l) = get_tid u l.
+Proof.
+  induction l as [|[v x] l IH]; intros Hu; cbn; [reflexivity|]. destruct (Nat.eqb_spec v t) as [->|N].
+  - destruct (Nat.eqb_spec t u); [congruence|reflexivity].
+  - cbn. rewrite IH by auto. reflexivity.
+Qed.
+Lemma get_tid_rm_same : forall A t (l : list (tid * A)), NoDup (map fst l) -> get_tid t (rm_tid t l) = None.
+Proof.
+  induction l as [|[v x] l IH]; intros Hn; cbn; [reflexivity|]. inversion Hn; subst.
+  destruct (Nat.eqb_spec v t) as [->|N]; [apply get_tid_none; auto|].
+  cbn. destruct (Nat.eqb_spec v t); [congruence|]. apply IH; auto.
+Qed.
+Lemma rm_tid_incl : forall A t (l : list (tid * A)) x, In x (map fst (rm_tid t l)) -> In x (map fst l).
+Proof.
+  induction l as [|[v y] l IH]; intros x H; cbn in *; [exact H|]. destruct (Nat.eqb_spec v t); [right; exact H|].
+  cbn in H. destruct H; auto.
+Qed.
+Lemma rm_tid_nd : forall A t (l : list (tid * A)), NoDup (map fst l) -> NoDup (map fst (rm_tid t l)).
+Proof.
+  induction l as [|[v y] l IH]; intros Hn; cbn; [constructor|]. inversion Hn; subst.
+  destruct (Nat.eqb_spec v t); [assumption|]. cbn. constructor; [|apply IH; auto]. intro H. apply H1. eapply rm_tid_incl; eauto.
+Qed.
+Lemma memT_rmT : forall t u l, memT u (rmT t l) = negb (Nat.eqb u t) && memT u l.
+Proof.
+  intros t u l. unfold memT, rmT. induction l as [|v l IH]; cbn; [rewrite andb_false_r; reflexivity|].
+  destruct (Nat.eqb_spec v t) as [->|N]; cbn; rewrite IH.
+  - destruct (Nat.eqb_spec u t) as [->|M]; cbn; [reflexivity|]. destruct (Nat.eqb_spec t u); [congruence|reflexivity].
+  - destruct (Nat.eqb_spec u t) as [->|M]; cbn; [|reflexivity]. destruct (Nat.eqb_spec v t); [congruence|reflexivity].
+Qed.
+
+Lemma mb_plain_eq : forall b t e, plain e ->
+  mb_step b (t, e) =
+  if is_ghost e then b
+  else match get_tid t (b_cur b) with
+       | Some _ => b
+       | None => if memT t (b_exit b) then b else mkMB (b_cur b) (t :: b_exit b) (b_notif b) (b_nthr b)
+       end.
+Proof. intros b t e H. destruct e; cbn in *; try contradiction; try reflexivity; try (destruct h; reflexivity). Qed.
+
+Lemma mb_fold_plain : forall t ev b,
+  (forall e, In e ev -> plain e) ->
+  let b' := fold_left mb_step (evs t ev) b in
+  b_cur b' = b_cur b /\ b_notif b' = b_notif b /\ b_nthr b' = b_nthr b /\
+  (forall u, memT u (b_exit b) = true -> memT u (b_exit b') = true) /\
+  (forall u, u <> t -> memT u (b_exit b') = memT u (b_exit b)) /\
+  (get_tid t (b_cur b) = None -> (exists e, In e ev /\ is_ghost e = false) -> memT t (b_exit b') = true) /\
+  (forall c, get_tid t (b_cur b) = Some c -> b_exit b' = b_exit b).
+Proof.
+  induction ev as [|e ev IH]; intros b Hp; cbn zeta.
+  - cbn. repeat split; auto. intros _ [e [[] _]].
+  - cbn [evs map fold_left]. fold (evs t ev).
+    assert (Hp' : forall e0, In e0 ev -> plain e0) by (intros; apply Hp; right; auto).
+    specialize (IH (mb_step b (t, e)) Hp'). cbn zeta in IH.
+    destruct IH as [A1 [A2 [A3 [A4 [A5 [A6 A7]]]]]].
+    rewrite (mb_plain_eq b t e (Hp e (or_introl eq_refl))) in *.
+    destruct (is_ghost e) eqn:Eg.
+    + split; [exact A1|]. split; [exact A2|]. split; [exact A3|]. split; [exact A4|]. split; [exact A5|]. split; [|exact A7].
+      intros Hn [e0 [[<-|Hin] Hg]]; [congruence|]. apply A6; eauto.
+    + destruct (get_tid t (b_cur b)) eqn:Egt.
+      * split; [exact A1|]. split; [exact A2|]. split; [exact A3|]. split; [exact A4|]. split; [exact A5|]. split; [intros; discriminate|].
+        intros c0 _. apply (A7 c). exact Egt.
+      * destruct (memT t (b_exit b)) eqn:Em.
+        -- split; [exact A1|]. split; [exact A2|]. split; [exact A3|]. split; [exact A4|]. split; [exact A5|]. split; [|intros; discriminate].
+           intros _ _. apply A4. exact Em.
+        -- cbn [b_cur b_exit b_notif b_nthr] in *.
+           split; [exact A1|]. split; [exact A2|]. split; [exact A3|]. split; [|split; [|split]].
+           ++ intros u Hu. apply A4. cbn. unfold memT in Hu. rewrite Hu. apply orb_true_r.
+           ++ intros u Hu. rewrite A5 by auto. cbn. destruct (Nat.eqb_spec t u); [congruence|reflexivity].
+           ++ intros _ _. apply A4. cbn. rewrite Nat.eqb_refl. reflexivity.
+           ++ intros; discriminate.
+Qed.
+
+(** a component of thread [t] that emits only plain events and leaves commands and the notification alone *)
+Lemma br_plain : forall st st' b t ev,
+  BRel st b -> nthr st' = nthr st ->
+  (forall u, tcur (thr st' u) = tcur (thr st u)) ->
+  (forall u, u <> t -> tcont (thr st' u) = tcont (thr st u)) ->
+  gnotified st' = gnotified st ->
+  (forall e, In e ev -> plain e) ->
+  (tcur (thr st t) = None -> tcont (thr st' t) <> [] ->
+   (tcont (thr st t) <> [] /\ (only_locks (tcont (thr st t)) -> exists e, In e ev /\ is_ghost e = false)) \/
+   only_locks (tcont (thr st' t))) ->
+  (t < nthr st)%nat ->
+  BRel st' (fold_left mb_step (evs t ev) b).
+Proof.
+  intros st st' b t ev B Hn Hcur Ho Hg Hp Hex Ht.
+  destruct (mb_fold_plain t ev b Hp) as [A1 [A2 [A3 [A4 [A5 [A6 A7]]]]]]. cbn zeta in *.
+  constructor.
+  - intros u Hu. rewrite A1, Hcur. apply (br_cur st b B). lia.
+  - intros u Hu. rewrite A1. apply (br_dom st b B). lia.
+  - rewrite A1. apply (br_nd st b B).
+  - rewrite A2, Hg. apply (br_notif st b B).
+  - intros u Hc Hne. rewrite Hcur in Hc. destruct (Nat.eq_dec u t) as [->|Hu].
+    + destruct (Hex Hc Hne) as [[Hne0 Hl]|Hl]; [|right; exact Hl].
+      destruct (br_exit st b B t Hc Hne0) as [M|L]; [left; apply A4; exact M|].
+      left. apply A6; [rewrite (br_cur st b B t Ht); exact Hc|apply Hl; exact L].
+    + rewrite (Ho u Hu) in *. destruct (br_exit st b B u Hc Hne) as [M|L]; [left; apply A4; exact M|right; exact L].
+Qed.
+
+Lemma mbq_quiescent : forall st b, BRel st b -> XInv st -> pristine st -> mb_quiescent b = true -> quiescent st.
+Proof.
+  intros st b B X [P0 P] Hq. unfold mb_quiescent in Hq.
+  destruct (b_cur b) eqn:Ec; [|discriminate]. destruct (b_exit b) eqn:Ee; [|discriminate].
+  apply negb_true_iff in Hq.
+  assert (Cur : forall t, (t < nthr st)%nat -> tcur (thr st t) = None).
+  { intros t Hlt. rewrite <- (br_cur st b B t Hlt), Ec. reflexivity. }
+  assert (Lt : forall t, tcont (thr st t) <> [] -> (t < nthr st)%nat).
+  { intros t Hne. destruct (le_lt_dec (nthr st) t) as [Hge|Hlt]; [|exact Hlt]. destruct (P t Hge) as [E _]. congruence. }
+  split; [|split].
+  - intros t k [r Hc]. assert (Hne : tcont (thr st t) <> []) by (rewrite Hc; discriminate).
+    destruct (br_exit st b B t (Cur t (Lt t Hne)) Hne) as [M|L]; [rewrite Ee in M; discriminate|].
+    destruct (L (IClimb k)) as [m [a E]]; [rewrite Hc; left; reflexivity|discriminate].
+  - unfold mcont. destruct (tcont (thr st main)) eqn:E; auto. exfalso.
+    assert (Hne : tcont (thr st main) <> []) by (rewrite E; discriminate).
+    destruct (x_idle st X main (Cur main (Lt main Hne)) Hne) as [_ [_ [N _]]]. congruence.
+  - rewrite <- (br_notif st b B). exact Hq.
+Qed.
+
+(** ** events and notification flag of one yielding instruction *)
+Ltac pl := let e := fresh "e" in let He := fresh "He" in intros e He; cbn in He; repeat (destruct He as [<-|He]); try contradiction; exact Logic.I.
+
+Lemma exec_lact_evs : forall st t a r st' ev, exec_lact st t a r = (st', ev) ->
+  (forall e, In e ev -> plain e) /\ gnotified st' = gnotified st.
+Proof.
+  intros st t a r st' ev H.
+  destruct a; cbn [exec_lact] in H; unfold ghost_handler in H; destr_all H; inversion H; subst; clear H; (split; [pl|reflexivity]).
+Qed.
+Lemma in_map_plain : forall A (f : A -> wevent) l, (forall x, plain (f x)) -> forall e, In e (map f l) -> plain e.
+Proof. intros A f l Hf e He. apply in_map_iff in He. destruct He as [x [<- _]]. apply Hf. Qed.
+Lemma exec_uact_evs : forall st t a r st' ev, exec_uact st t a r = (st', ev) ->
+  (forall e, In e ev -> plain e) /\ gnotified st' = gnotified st.
+Proof.
+  intros st t a r st' ev H.
+  destruct a; cbn [exec_uact] in H; inversion H; subst; clear H; (split; [|reflexivity]); try pl.
+  - apply in_map_plain. intro; exact Logic.I.
+  - intros e He. apply in_app_or in He. destruct He as [He|He]; [revert e He; apply in_map_plain; intro; exact Logic.I|].
+    destruct term; [destruct He as [<-|[]]; exact Logic.I|destruct He].
+Qed.
+
+Lemma notify_fold_notif : forall us st,
+  gnotified (fold_left (fun s u => upd_th s u (set_twaiting (th s u) false)) us st) = gnotified st.
+Proof. induction us as [|v us IH]; intro st; [reflexivity|]. cbn [fold_left]. rewrite IH. reflexivity. Qed.
+Lemma ghost_collect_notif : forall bits st, gnotified (ghost_collect st bits) = gnotified st.
+Proof.
+  unfold ghost_collect. induction bits as [|b bits IH]; intro st; [reflexivity|]. cbn [fold_left].
+  destruct (slab_get (sl st) b); rewrite IH; reflexivity.
+Qed.
+
+Lemma exec_instr_evs : forall st t i r st' ev, exec_instr st t i r = (st', ev) ->
+  (i = IClimb KCb /\ ev = [ECallback] /\ gnotified st' = true) \/
+  ((forall e, In e ev -> plain e) /\ gnotified st' = gnotified st /\
+   (forall m a, i = ILock m a -> exists e, In e ev /\ is_ghost e = false)).
+Proof.
+  intros st t i r st' ev H. destruct i; cbn [exec_instr] in H.
+  - destruct k; cbn [exec_climb] in H; inversion H; subst; clear H.
+    + right. split; [pl|]. split; [|intros; discriminate].
+      destruct (bitmap_join a b (bmbase st bm)) as [x|]; [destruct (slab_get (sl st) x)|]; reflexivity.
+    + right. split; [pl|]. split; [reflexivity|intros; discriminate].
+    + right. split; [pl|]. split; [reflexivity|intros; discriminate].
+    + left. auto.
+  - inversion H; subst; clear H. right. split; [pl|]. split; [reflexivity|intros; discriminate].
+  - destruct bms; inversion H; subst; clear H; right; (split; [pl|]; split; [reflexivity|intros; discriminate]).
+  - destruct ls; [inversion H; subst; right; split; [pl|]; split; [reflexivity|intros; discriminate]|].
+    destruct (collect (bmbase st bm) z (leaf st bm z)) as [bits ok].
+    match type of H with context [ghost_collect ?S0 bits] =>
+      pose proof (ghost_collect_notif bits S0) as A; remember (ghost_collect S0 bits) as s3 eqn:Es3 end.
+    inversion H; subst st' ev; clear H. right. split; [|split; [cbn; rewrite A; reflexivity|intros; discriminate]].
+    destruct ok; pl.
+  - inversion H; subst. right. split; [pl|]. split; [reflexivity|intros; discriminate].
+  - inversion H; subst. right. split; [pl|]. split; [reflexivity|intros; discriminate].
+  - inversion H; subst. right. split; [pl|]. split; [reflexivity|intros; discriminate].
+  - match type of H with context [exec_lact ?S0 t ?aa ?rr] => destruct (exec_lact S0 t aa rr) as [s2 e2] eqn:E end.
+    inversion H; subst; clear H. apply exec_lact_evs in E. destruct E as [E1 E2]. right. split; [|split].
+    + intros e [<-|He]; [exact Logic.I|apply E1; exact He].
+    + rewrite E2. reflexivity.
+    + intros m0 a0 _. exists (ELock m). split; [left; reflexivity|reflexivity].
+  - destruct (exec_uact st t a r) as [s1 e1] eqn:E. inversion H; subst; clear H.
+    apply exec_uact_evs in E. destruct E as [E1 E2]. right. split; [|split; [cbn; exact E2|intros; discriminate]].
+    intros e [<-|He]; [exact Logic.I|apply E1; exact He].
+  - inversion H; subst; clear H. right. split; [pl|]. split; [reflexivity|intros; discriminate].
+  - match type of H with context [exec_lact ?S0 t ?aa ?rr] => destruct (exec_lact S0 t aa rr) as [s2 e2] eqn:E end.
+    inversion H; subst; clear H. apply exec_lact_evs in E. destruct E as [E1 E2]. right. split; [|split; [rewrite E2; reflexivity|intros; discriminate]].
+    intros e [<-|He]; [exact Logic.I|apply E1; exact He].
+  - inversion H; subst st' ev; clear H. right. split; [pl|]. split; [|intros; discriminate].
+    cbn. apply notify_fold_notif.
+  - unfold ghost_handler in H. inversion H; subst; clear H. right. split; [pl|]. split; [destruct del; reflexivity|intros; discriminate].
+  - inversion H; subst; clear H. right. split; [pl|]. split; [reflexivity|intros; discriminate].
+  - inversion H; subst; clear H. right. split; [pl|]. split; [reflexivity|intros; discriminate].
+Qed.
+
+Lemma exec_instr_B : forall st b t i r st' ev,
+  BRel st b -> tcont (thr st t) = i :: r -> (t < nthr st)%nat ->
+  exec_instr st t i r = (st', ev) -> BRel st' (fold_left mb_step (evs t ev) b).
+Proof.
+  intros st b t i r st' ev B Hc Ht H.
+  destruct (exec_instr_tf _ _ _ _ _ _ H) as [Hn [Hf Ho]].
+  assert (Hcur : forall u, tcur (thr st' u) = tcur (thr st u)) by (intro u; destruct (Hf u) as [A _]; exact A).
+  destruct (exec_instr_evs _ _ _ _ _ _ H) as [[-> [-> Hg]]|[Hp [Hg Hl]]].
+  - (* the poll-waker callback *)
+    cbn. constructor; cbn [b_cur b_exit b_notif b_nthr].
+    + intros u Hu. rewrite Hcur. apply (br_cur st b B). lia.
+    + intros u Hu. apply (br_dom st b B). lia.
+    + apply (br_nd st b B).
+    + symmetry. exact Hg.
+    + intros u Hc0 Hne. rewrite Hcur in Hc0. destruct (Nat.eq_dec u t) as [->|Hu].
+      * left. destruct (br_exit st b B t Hc0) as [M|L]; [rewrite Hc; discriminate|exact M|].
+        destruct (L (IClimb KCb)) as [m [a E]]; [rewrite Hc; left; reflexivity|discriminate].
+      * rewrite (Ho u Hu) in *. apply (br_exit st b B u Hc0 Hne).
+  - apply (br_plain st st' b t ev B Hn Hcur Ho Hg Hp); [|exact Ht].
+    intros Hc0 Hne. left. split; [rewrite Hc; discriminate|]. intro L.
+    destruct (L i) as [m [a E]]; [rewrite Hc; left; reflexivity|]. eapply Hl; eauto.
+Qed.
+
+(** ** the start of a command *)
+Definition is_pollcmd (c : cmd) : bool := match c with CPoll | CPollIf => true | _ => false end.
+
+Lemma fill_loop_ghostev : forall n st ev st' ev',
+  fill_loop n st ev = (st', ev') -> (forall e, In e ev -> plain e /\ is_ghost e = true) ->
+  (forall e, In e ev' -> plain e /\ is_ghost e = true) /\ gnotified st' = gnotified st.
+Proof.
+  induction n as [|n IH]; intros st ev st' ev' H Hp; cbn [fill_loop] in H.
+  - inversion H; subst. auto.
+  - destruct (wh_add st (HPlain (1000000 + nfill st))) as [[st1 wi]|] eqn:E.
+    + apply IH in H.
+      * destruct H as [A B]. split; [exact A|]. rewrite B. cbn.
+        unfold wh_add in E. destruct (slab_insert (sl st) _) as [bit0 s0].
+        destruct (add_loop 2 s0 _ bit0) as [[[bit base] s1]|]; [|discriminate].
+        destruct (waker_vec_index bit); [|discriminate]. destruct (waker_slot bit); [|discriminate]. inversion E; subst. reflexivity.
+      * intros e He. apply in_app_or in He. destruct He as [He|[<-|[]]]; [apply Hp; exact He|split; [exact Logic.I|reflexivity]].
+    + inversion H; subst. split; [|reflexivity]. intros e He. apply in_app_or in He.
+      destruct He as [He|[<-|[]]]; [apply Hp; exact He|split; [exact Logic.I|reflexivity]].
+Qed.
+
+Lemma wh_add_notif : forall st h st1 wi, wh_add st h = Some (st1, wi) -> gnotified st1 = gnotified st.
+Proof.
+  intros st h st1 wi E. unfold wh_add in E. destruct (slab_insert (sl st) h) as [bit0 s0].
+  destruct (add_loop 2 s0 h bit0) as [[[bit base] s1]|]; [|discriminate].
+  destruct (waker_vec_index bit); [|discriminate]. destruct (waker_slot bit); [|discriminate]. inversion E; subst. reflexivity.
+Qed.
+
+Lemma begin_cmd_sum : forall st t c st' ev done,
+  pristine st -> (t < nthr st)%nat -> begin_cmd st t c = (st', ev, done) ->
+  (forall e, In e ev -> plain e /\ is_ghost e = true) /\
+  tcur (thr st' t) = tcur (thr st t) /\
+  (forall u, u <> t -> (u < nthr st)%nat -> thr st' u = thr st u) /\
+  (nthr st' = nthr st \/
+   (nthr st' = S (nthr st) /\ tcur (thr st' (nthr st)) = None /\ tcont (thr st' (nthr st)) = [])) /\
+  gnotified st' = (if is_pollcmd c && is_main t then false else gnotified st).
+Proof.
+  intros st t c st' ev done [P0 P] Ht H.
+  assert (Gh : forall l : list wevent, (forall e, In e l -> e = EErr \/ exists b h, e = EAdd b h) -> forall e, In e l -> plain e /\ is_ghost e = true).
+  { intros l Hl e He. destruct (Hl e He) as [->|[b [h ->]]]; split; try exact Logic.I; reflexivity. }
+  assert (Sp : forall s p f, thr s = thr st -> nthr s = nthr st -> gnotified s = gnotified st ->
+    tcur (thr (spawn_thread s t p f) t) = tcur (thr st t) /\
+    (forall u, u <> t -> (u < nthr st)%nat -> thr (spawn_thread s t p f) u = thr st u) /\
+    (nthr (spawn_thread s t p f) = nthr st \/
+     (nthr (spawn_thread s t p f) = S (nthr st) /\ tcur (thr (spawn_thread s t p f) (nthr st)) = None /\
+      tcont (thr (spawn_thread s t p f) (nthr st)) = []))).
+  { intros s p f E1 E2 E3. cbn. unfold updN, th. rewrite E2, E1. split; [|split].
+    - destruct (Nat.eqb_spec t (nthr st)); [lia|reflexivity].
+    - intros u Hu Hl. destruct (Nat.eqb_spec u (nthr st)); [lia|reflexivity].
+    - right. rewrite Nat.eqb_refl. cbn. auto. }
+  destruct c; cbn [begin_cmd] in H; destr_all H; inversion H; subst; clear H; cbn [is_pollcmd andb];
+    repeat match goal with
+           | E : wh_add _ _ = Some _ |- _ =>
+               pose proof (wh_add_notif _ _ _ _ E); destruct (wh_add_core _ _ _ _ E) as [? [? [? [C1 [C2 _]]]]]; clear E
+           end;
+    try (split; [apply Gh; intros e0 He0; cbn in He0; repeat (destruct He0 as [<-|He0]); try contradiction; eauto|];
+         first [ split; [thr_simpl|split; [thr_simpl|split; [left; reflexivity|try reflexivity; try (destruct (is_main t); reflexivity)]]]
+               | split; [cbn; rewrite ?C1; thr_simpl|split; [cbn; rewrite ?C1; thr_simpl|split; [left; cbn; congruence|cbn; congruence]]] ]; fail).
+  all: try (destruct (Sp st (-1) [] eq_refl eq_refl eq_refl) as [S1 [S2 S3]];
+            split; [intros e0 []|]; split; [exact S1|split; [exact S2|split; [exact S3|reflexivity]]]; fail).
+  all: repeat match goal with
+              | E : negb (is_main _) = true |- _ => apply negb_true_iff in E; rewrite ?E
+              | E : negb (is_main _) = false |- _ => apply negb_false_iff in E; rewrite ?E
+              end.
+  all: try (split; [intros e0 []|]; split; [thr_simpl|split; [thr_simpl|split; [left; reflexivity|reflexivity]]]; fail).
+  - (* CFill *)
+    match goal with E : fill_loop _ _ _ = _ |- _ =>
+      destruct (fill_loop_ghostev _ _ _ _ _ E ltac:(intros e0 [])) as [G1 G2]; destruct (fill_loop_pps _ _ _ _ _ E) as [_ B];
+      pose proof (fill_loop_nthr _ _ _ _ _ E) as N end.
+    split; [exact G1|]. rewrite B. split; [reflexivity|]. split; [auto|]. split; [left; exact N|exact G2].
+  - (* CPNew *)
+    match goal with |- context [spawn_thread ?S _ ?pp ?F] => destruct (Sp S pp F) as [S1 [S2 S3]]; [exact C1|exact C2|cbn; assumption|] end.
+    split; [apply Gh; intros e0 [<-|[]]; eauto|]. split; [exact S1|split; [exact S2|split; [exact S3|cbn; assumption]]].
+Qed.
